@@ -118,6 +118,19 @@ impl From<Operand> for u64 {
 }
 
 impl Axecutor {
+    /// Reads a base or index register of a memory operand. With the address-size prefix (0x67)
+    /// these are 32-bit registers; `addr32` is set so that the caller wraps the address at 2^32.
+    fn mem_addr_register(&self, reg: SupportedRegister, addr32: &mut bool) -> u64 {
+        if iced_x86::Register::from(reg).is_gpr32() {
+            *addr32 = true;
+            self.reg_read_32(reg)
+                .expect("reading 32-bit memory operand register")
+        } else {
+            self.reg_read_64(reg)
+                .expect("reading memory operand register")
+        }
+    }
+
     /// The effective address of a memory operand without the segment base (this is what LEA stores)
     pub(crate) fn effective_addr(&self, o: MemOperand) -> u64 {
         let MemOperand {
@@ -128,22 +141,24 @@ impl Axecutor {
             segment: _,
         } = o;
         let mut addr: u64 = 0;
+        let mut addr32 = false;
         if let Some(base) = base {
-            addr = addr.wrapping_add(
-                self.reg_read_64(base)
-                    .expect("reading memory operand base register"),
-            );
+            addr = addr.wrapping_add(self.mem_addr_register(base, &mut addr32));
         }
         if let Some(index) = index {
             addr = addr.wrapping_add(
-                self.reg_read_64(index)
-                    .expect("reading memory operand index register")
+                self.mem_addr_register(index, &mut addr32)
                     .wrapping_mul(scale as u64),
             );
         }
 
         // This overflow is explicitly allowed, as x86-64 encodes negative values as signed integers
         addr = addr.wrapping_add(displacement);
+
+        if addr32 {
+            // 32-bit address size: the effective address wraps at 2^32 and is zero-extended
+            addr &= 0xffff_ffff;
+        }
 
         addr
     }
@@ -208,6 +223,8 @@ impl Axecutor {
                     iced_x86::Register::None => None,
                     // If base is RIP, we can use the displacement as-it. No need to add it to the memory address
                     iced_x86::Register::RIP => None,
+                    // Same for EIP (address-size prefix): the displacement is already the 32-bit target
+                    iced_x86::Register::EIP => None,
                     r => Some(SupportedRegister::from(r)),
                 };
                 let index = match i.memory_index() {
